@@ -2721,9 +2721,22 @@ func (fw *fixedSizeBodyWriter) ReadFrom(r io.Reader) (int64, error) {
 	fw.left -= n
 	if err == nil && fw.left == 0 {
 		// The declared size has been copied. The stream must be at EOF now.
+		// A reader may return (0, nil) before its next byte or its error, so
+		// keep probing like bufio does.
 		var b [1]byte
-		if m, _ := r.Read(b[:]); m > 0 {
-			err = errBodyStreamTooLong
+		for i := 0; ; i++ {
+			m, rerr := r.Read(b[:])
+			if m > 0 {
+				err = errBodyStreamTooLong
+				break
+			}
+			if rerr != nil {
+				break
+			}
+			if i >= 100 {
+				err = io.ErrNoProgress
+				break
+			}
 		}
 	}
 	return n, err
